@@ -10,7 +10,7 @@ RULE = ("Each run: drawn policy combination (no TreeBandit, scale=False), a trai
         "(sizes >= 1, chunks that omit arms, first chunk delivered by fit or by partial_fit); after every chunk a "
         "fresh replica is fit once on the whole prefix, stream positions are copied across, and observations and "
         "parameter views must coincide (== in the exact arithmetic regime).")
-EXPECTED_PROBES = ["probe.chunk_of_one_row", "probe.chunk_omits_arm", "probe.first_chunk_by_partial_fit"]
+EXPECTED_PROBES = ["probe.mixed_dtypes_along_stream", "probe.chunk_of_one_row", "probe.chunk_omits_arm", "probe.first_chunk_by_partial_fit"]
 NPS = ("Radius", "KNearest", "LSHNearest", "Clusters")
 
 
@@ -37,8 +37,25 @@ def generate(rnd, tier, index=0):
         rows = gen.gen_rows(rnd, cfg["arms"], n, d, regime, rkind, ctxl, omit=gen.some_omitted(rnd, cfg["arms"]))
         stored.extend(r[2] for r in rows if ctxl)
         ops.append({"op": "fit" if (c == 0 and rnd.random() < 0.7) else "partial_fit", "rows": rows})
+    if rnd.random() < 0.25:
+        # mixed dtypes along the stream: the first chunk is all integers (int arrays), later chunks carry fractions
+        for r in ops[0]["rows"]:
+            r[1] = int(round(r[1])) if lp_allows_any(cfg) else r[1]
+            if r[2] is not None:
+                r[2] = [int(round(x)) for x in r[2]]
+        for o in ops[1:]:
+            for r in o["rows"]:
+                if lp_allows_any(cfg) and isinstance(r[1], int):
+                    r[1] = r[1] + 0.5
+                if r[2] is not None and regime == "exact":
+                    r[2] = [x + 0.5 for x in r[2]]
     Q = gen.gen_Q(rnd, rnd.randint(1, 5), d, regime, stored) if ctxl else rnd.choice([None, [[0]], [[1, 2], [3, 4]]])
     return {"cfg": cfg, "regime": regime, "ops": ops, "Q": Q}
+
+
+def lp_allows_any(cfg):
+    """Rewards may be arbitrary reals (not for ThompsonSampling: binary; Popularity: non-negative, +0.5 keeps that)."""
+    return cfg["lp"][0] != "ThompsonSampling"
 
 
 def shrink_paths(case):
@@ -75,6 +92,9 @@ def execute(case, ctx):
         applied.extend(rows)
         if len(rows) == 1:
             ctx.fired("probe.chunk_of_one_row")
+        if step > 0 and any(isinstance(x[1], float) and x[1] != int(x[1]) for x in rows) and \
+                all(isinstance(x[1], int) for x in applied[:1]):
+            ctx.fired("probe.mixed_dtypes_along_stream")
         if {x[0] for x in rows} != set(cfg["arms"]):
             ctx.fired("probe.chunk_omits_arm")
         R = Session(cfg)
